@@ -33,6 +33,13 @@ STUBS = ["sqllineage.runner.split / SqlFluffLineageAnalyzer._list_specific_state
 ASSUMPTIONS = ["warnings are observed through warnings.catch_warnings(record=True)"]
 
 EDGE = {
+    # more than one write target (the library's own generic error), also where the inner writer sits in a derived table / a CTE
+    "two_write_targets/postgres": ("postgres", ["INSERT INTO zqt1 SELECT ca INTO zqt2 FROM zqt3"]),
+    "two_write_targets/tsql": ("tsql", ["INSERT INTO zqt1 SELECT ca INTO zqt2 FROM zqt3"]),
+    "select_into_in_derived/postgres": ("postgres", ["SELECT sq.ca FROM (SELECT ca INTO zqt1 FROM zqt2) sq"]),
+    "select_into_in_derived/tsql": ("tsql", ["SELECT sq.ca FROM (SELECT ca INTO zqt1 FROM zqt2) sq"]),
+    "select_into_in_derived_insert/tsql": ("tsql", ["INSERT INTO zqt3 SELECT sq.ca FROM (SELECT ca INTO zqt1 FROM zqt2) sq"]),
+    "select_into_in_cte/postgres": ("postgres", ["WITH zqc1 AS (SELECT ca INTO zqt1 FROM zqt2) SELECT ca FROM zqc1"]),
     "four_part_name": ("ansi", ["SELECT ca FROM zqs1.zqs2.zqs3.zqt1"]),
     "four_part_target": ("ansi", ["INSERT INTO zqs1.zqs2.zqs3.zqt1 SELECT ca FROM zqt2"]),
     "column_list_longer": ("ansi", ["INSERT INTO zqt1 (ca, cb, cc) SELECT ca FROM zqt2"]),
